@@ -222,6 +222,8 @@ def facts : Facts := {
   rollbackOnFailedBuild := true
   buildProtocol := true
   unknownIndexProtocol := true
+  descriptorWriteSites := 0
+  descriptorWriteSiteList := []
   hotPathHeapSites := 0
   hotPathHeapSiteList := []
   escapeAnalysisRan := true
